@@ -46,6 +46,8 @@ def sources(tier, seed, ctx):
             reps = ['TruthTable', 'PyFunction', 'Circuit'] if tier != 'quick' or (n, m) != (2, 2) or k % 2 == 0 else [['TruthTable', 'PyFunction', 'Circuit'][k % 3]]
             for rep in reps:
                 srcs.append({'k': 'fn', 'n': n, 'm': m, 'tt': f, 'rep': rep, 'positional': (k % 2 == 0)})
+            if any(sorted(t) == [r for r in range(2 ** n) if (r >> (n - 1 - j)) & 1] for t in f for j in range(n)):
+                srcs.append({'k': 'fn', 'n': n, 'm': m, 'tt': f, 'rep': 'Circuit', 'direct': True})
     # python callables that return (a view of) the very list they were given: identity and projections
     for n in (1, 2, 3):
         srcs.append({'k': 'fn', 'n': n, 'm': n, 'tt': [sorted(r for r in range(2 ** n) if (r >> (n - 1 - j)) & 1) for j in range(n)], 'rep': 'PyFunction', 'alias': 'identity'})
@@ -90,7 +92,7 @@ def _table(n, m, tt):
     return [[r in set(tt[k]) for r in range(2 ** n)] for k in range(m)]
 
 
-def _dnf_circuit(n, m, tt):
+def _dnf_circuit(n, m, tt, direct=False):
     from cirbo.core.circuit import Circuit, gate as G
 
     c = Circuit()
@@ -110,6 +112,10 @@ def _dnf_circuit(n, m, tt):
     cnt = 0
     for k in range(m):
         rows = sorted(tt[k])
+        col = [j for j in range(n) if rows == [r for r in range(2 ** n) if (r >> (n - 1 - j)) & 1]]
+        if direct and col:
+            outs.append(ins[col[0]])      # the output IS the input gate (no gate in between)
+            continue
         if not rows:
             lab = f'o{k}'
             c.emplace_gate(lab, G.ALWAYS_FALSE)
@@ -155,7 +161,7 @@ def _make(src):
     if src['rep'] == 'TruthTable':
         return TruthTable(table)
     if src['rep'] == 'Circuit':
-        return _dnf_circuit(n, m, tt)
+        return _dnf_circuit(n, m, tt, direct=bool(src.get('direct')))
     cols = [[table[k][r] for k in range(m)] for r in range(2 ** n)]
 
     def lookup(args):
